@@ -4,11 +4,13 @@
    the object holds (the complete state, hence every observable: values, nested subfields, re-packed bytes, JSON),
    for objects in a clean state: every subfield / data element that is not set is as new. Clean is the invariant of
    the objects the library builds: new objects are clean, and Unpack (also a failing one) and UnsetField keep it
-   (C10_*_clean) and the setters by id; for the other writers (Marshal, JSON, unset by path) it is checked by the
-   correspondence on histories, not proved. This rests on the repairs F12 (presence sets are reset), F28 (what was set is re-created)
+   (C10_*_clean), the setters by id, Message.Marshal of any struct (whatever its outcome) and every accepted
+   Message.UnmarshalJSON (C10_marshal_clean, C10_json_clean); for unset by path and failing JSON documents it is
+   checked by the correspondence on histories, not proved. This rests on the repairs F12 (presence sets are reset), F28 (what was set is re-created)
    and F30 (what failed is re-created); track fields: model and search only. *)
 From Iso Require Import Model.Base Model.Padding Model.Encoding Model.Prefix Model.Bitmap Model.Spec Model.Field Model.Message
      Proofs.BaseLemmas Proofs.FieldProofs Proofs.CompositeProofs Proofs.MessageRoundtrip Proofs.IndependenceProofs Properties.C01.
+From Iso Require Import Model.MessageOps Model.Marshal Proofs.CleanOps.
 
 Theorem C10_prim : forall p st0 st1 data,
   snd (prim_unpack p st0 data) = snd (prim_unpack p st1 data) /\
@@ -50,6 +52,14 @@ Print Assumptions C10_unpack_clean.
 Theorem C10_set_field_clean : forall S m id val, msg_clean S m -> msg_clean S (fst (m_set_field S m id val)).
 Proof. exact m_set_field_clean. Qed.
 Print Assumptions C10_set_field_clean.
+
+Theorem C10_marshal_clean : forall S m t v, msg_clean S m -> msg_clean S (fst (m_marshal S m t v)).
+Proof. exact m_marshal_clean. Qed.
+Print Assumptions C10_marshal_clean.
+
+Theorem C10_json_clean : forall S kvs m m', msg_clean S m -> m_from_json S m kvs = (m', Ok tt) -> msg_clean S m'.
+Proof. exact m_from_json_clean. Qed.
+Print Assumptions C10_json_clean.
 
 (* a tagged composite that was populated with both subfields and is then used to unpack only one of them shows
    exactly that one (the F12 scenario), and holds nothing of what it held before (F28: Unpack discards the
